@@ -680,6 +680,8 @@ class Engine:
             es, _ = s.L.size_align(rt.elem)
             return Agg([s.load(st, s.padd(st, p, i * es), rt.elem, stack) for i in range(rt.n)])
         sz, _ = s.L.size_align(rt)
+        if rt.k == 'int' and rt.bits % 8 == 0 and rt.bits // 8 < sz:
+            sz = rt.bits // 8        # i24, i48, ...: the access touches the store size, not the (padded) alloc size
         tk, bits = s.scalar_kind(rt)
         ob = s.getobj(st, p, 'load', stack=stack)
         s.record_access(st, p, ob, False)
@@ -710,6 +712,8 @@ class Engine:
                 s.store(st, s.padd(st, p, i * es), rt.elem, v.e[i], stack)
             return
         sz, _ = s.L.size_align(rt)
+        if rt.k == 'int' and rt.bits % 8 == 0 and rt.bits // 8 < sz:
+            sz = rt.bits // 8
         ob = s.getobj(st, p, 'store', write=True, stack=stack)
         s.record_access(st, p, ob, True)
         off = s.bounds(st, ob, p, sz, 'store', stack)
